@@ -331,3 +331,30 @@ Theorem C01_length_of_dotted_list_is_error :
           [Slip; Ref; Chk] = true.
 Proof. exact length_of_dotted_list_is_error. Qed.
 Print Assumptions C01_length_of_dotted_list_is_error.
+
+(* case (round-4 seed c01-10): a clause is selected by membership of the key in its key list; t / otherwise inside a
+   key LIST are ordinary keys (only a clause whose key is the bare symbol t / otherwise is the default clause: the
+   third component of ECase), in every mode. *)
+Theorem C01_case_clause_by_membership : forall v ks body cls,
+  find_clause v ((ks, body) :: cls) = if existsb (case_key v) ks then Some body else find_clause v cls.
+Proof. exact case_clause_by_membership. Qed.
+Print Assumptions C01_case_clause_by_membership.
+Theorem C01_case_t_in_key_list_is_a_key : forall v ks body cls,
+  val_eql v VT = false -> find_clause v ((DT :: ks, body) :: cls) = find_clause v ((ks, body) :: cls).
+Proof. exact case_t_in_key_list_is_a_key. Qed.
+Print Assumptions C01_case_t_in_key_list_is_a_key.
+Theorem C01_case_otherwise_in_key_list_is_a_key : forall v ks body cls,
+  val_eql v (VSym "otherwise") = false ->
+  find_clause v ((DSym "otherwise" :: ks, body) :: cls) = find_clause v ((ks, body) :: cls).
+Proof. exact case_otherwise_in_key_list_is_a_key. Qed.
+Print Assumptions C01_case_otherwise_in_key_list_is_a_key.
+Theorem C01_case_key_list_examples :
+  forallb (fun m =>
+    match run m 20 [ECase (I 1) [([DT], [ETr 1 (I 1)])] None],
+          run m 20 [ECase (I 5) [([DInt 1; DSym "otherwise"], [ETr 1 (I 1)])] (Some [ETr 3 (I 3)])],
+          run m 20 [ECase ET [([DInt 1; DT], [ETr 1 (I 1)])] (Some [ETr 3 (I 3)])] with
+    | (Ok VNil, s1), (Ok (VInt 3), s2), (Ok (VInt 1), s3) =>
+        match trace s1, trace s2, trace s3 with [], [3%Z], [1%Z] => true | _, _, _ => false end
+    | _, _, _ => false end) [Slip; Ref; Chk] = true.
+Proof. exact case_key_list_examples. Qed.
+Print Assumptions C01_case_key_list_examples.
